@@ -541,10 +541,59 @@ def extract():
         for a in args:
             need(a)
 
+    # ---- optimiser start vectors: obj_fcn_dec (optimize.py) writes into the x0 array it is given, so every entry point
+    #      must hand over an array made for that call
+    x0_sites = []
+    for mod in mods:
+        if mod.rel.endswith("daily/optimize.py"):
+            continue
+        for n in ast.walk(mod.tree):
+            if isinstance(n, ast.Call):
+                f = n.func
+                last = f.id if isinstance(f, ast.Name) else (f.attr if isinstance(f, ast.Attribute) else None)
+                if last in X0_CALLEES:
+                    kw = {k.arg: k.value for k in n.keywords if k.arg}
+                    arg = kw.get("x0", n.args[1] if len(n.args) > 1 else None)
+                    if arg is None or any(isinstance(a, ast.Starred) for a in n.args):
+                        raise TranslatorError("%s:%d call of %s: the start vector cannot be read" % (mod.rel, n.lineno, last))
+                    x0_sites.append({"file": mod.rel, "func": mod.qual(n), "callee": last, "line": n.lineno,
+                                     "kind": x0_kind(ctx_of(mod, n), arg)})
+    if not x0_sites:
+        raise TranslatorError("no construction of an optimiser found (Optimizer / InitialGuessOptimizer)")
+
     algos, hourly = defaults_by_introspection()
-    return {"files": files, "sites": sites, "uses": uses, "assigns": assigns,
+    return {"files": files, "sites": sites, "uses": uses, "assigns": assigns, "x0_sites": x0_sites,
             "bindings": [{"func": f, "param": p, "args": a} for (f, p), a in sorted(bindings.items())],
             "mdefaults": mdefaults, "algorithms": algos, "hourly": hourly}
+
+
+X0_CALLEES = {"Optimizer", "InitialGuessOptimizer", "SciPyOptimizer", "NLoptOptimizer", "obj_fcn_dec"}
+
+
+def makes_new_object(e):
+    """the expression builds a new array: a call, or arithmetic with a call inside (np.array([..]) + T_min)"""
+    if isinstance(e, ast.Call):
+        return True
+    if isinstance(e, ast.BinOp):
+        return makes_new_object(e.left) or makes_new_object(e.right)
+    return False
+
+
+def x0_kind(ctx, e):
+    if makes_new_object(e):
+        return "XFresh"
+    if isinstance(e, ast.Name):
+        vals = ctx.assigns.get(e.id, [])
+        if vals and all(v is not None and makes_new_object(v) for v in vals) and e.id not in ctx.params:
+            return "XFresh"
+        if e.id in ctx.params:
+            return "XParam"
+        if not vals:
+            return "XShared"      # not a local, not a parameter: a module-level or closure object
+        return "XOther"
+    if isinstance(e, ast.Attribute):
+        return "XShared"
+    return "XOther"
 
 
 def mutable_default(mod, fn, param, pos, calls_of):
@@ -676,6 +725,9 @@ def render(ex):
         "  {| m_file := %s; m_func := %s; m_param := %s; m_pydantic := %s; m_usage := %s; m_calls := %d; m_explicit := %d |}" % (
             q(m["file"]), q(m["func"]), q(m["param"]), "true" if m["pydantic"] else "false", m["usage"], m["calls"], m["explicit"])
         for m in ex["mdefaults"]))
+    L.append("].\n")
+    L.append("Definition x0_sites : list (string * string * string * x0kind) := [")
+    L.append(";\n".join("  (%s, %s, %s, %s)" % (q(x["file"]), q(x["func"]), q(x["callee"]), x["kind"]) for x in ex["x0_sites"]))
     L.append("].\n")
     L.append("Definition default_algorithms : list (string * string) := [%s]." % "; ".join(
         "(%s, %s)" % (q(a), q(b)) for a, b in ex["algorithms"]))
